@@ -103,8 +103,15 @@ extern const void *vp_blk_base[VP_MAX_BLOCKS]; extern uint64_t vp_blk_len[VP_MAX
 #define VP_LOGICAL_SIZE(p) (VP_BLK_(0, p) VP_BLK_(1, p) VP_BLK_(2, p) VP_BLK_(3, p) VP_BLK_(4, p) VP_BLK_(5, p) VP_BLK_(6, p) VP_BLK_(7, p) (uint64_t)0)
 #define VP_ACCESS_OK(p, s) (!__CPROVER_DYNAMIC_OBJECT(p) || (VP_POFF(p) >= 0 && (uint64_t)VP_POFF(p) + (uint64_t)(s) <= VP_LOGICAL_SIZE(p)))
 #define VP_ACCESS(p, s) __CPROVER_assert(VP_ACCESS_OK((p), (s)), "memory access stays inside the bounds of its heap block")
+/* read-only regions (C20): objects that are shared between threads and only passed through const interfaces are registered here by the harness;
+ * every STORE of the translated code (and of the memcpy/memset models) is checked against them -- a write of an unchanged value is still a write (a data race) */
+#define VP_MAX_RO 3
+extern const void *vp_ro_base[VP_MAX_RO]; extern uint64_t vp_ro_len[VP_MAX_RO]; extern int vp_ro_n;
+#define VP_RO_HIT_(k, p, s) ((k) < vp_ro_n && __CPROVER_same_object((p), vp_ro_base[k]) && VP_POFF(p) < VP_POFF(vp_ro_base[k]) + (int64_t)vp_ro_len[k] && VP_POFF(p) + (int64_t)(s) > VP_POFF(vp_ro_base[k]))
+#define VP_ACCESS_W(p, s) do { VP_ACCESS((p), (s)); __CPROVER_assert(!(VP_RO_HIT_(0, (p), (s)) || VP_RO_HIT_(1, (p), (s)) || VP_RO_HIT_(2, (p), (s))), "no write to an object that is only passed through const interfaces (shared read-only state)"); } while (0)
 #else
 #define VP_ACCESS(p, s) ((void)0)
+#define VP_ACCESS_W(p, s) ((void)0)
 void vp_nat_assert_fail(const char *msg, const char *file, int line);
 void vp_nat_assume_fail(const char *file, int line);
 void vp_nat_abort(const char *msg);
